@@ -169,7 +169,14 @@ func runAKAHistory(hi int, h hmap) {
 	}
 	// bounded liveness: once faults stop, a fresh challenge is accepted (checked by the generator appending clean challenges)
 	w.Log(world.Event{Ev: "hist", I: hi, UE: -1, Info: hmap{"accepted": accepted, "resyncs": resyncs, "rejected": rejected, "clean_accepts_after_last_fault": sinceFault}})
-	if fl := num(h, "expect_final_accepts", 0); fl > 0 && sinceFault < 1 {
+	ops := list(h, "ops")
+	clean := func(o interface{}) bool {
+		m := o.(hmap)
+		d, _ := m["drop"].(bool)
+		return str(m, "op") == "challenge" && str(m, "fault") == "" && !d
+	}
+	// only a history that really ends with the clean exchanges (not one cut down by the shrinker) is judged
+	if fl := num(h, "expect_final_accepts", 0); fl > 0 && len(ops) >= fl && clean(ops[len(ops)-1]) && clean(ops[len(ops)-2]) && sinceFault < 1 {
 		viol(hi, "aka.liveness", "history", fmt.Sprintf("no challenge was accepted within the %d clean exchanges after the last fault", fl), nil)
 	}
 }
